@@ -448,7 +448,25 @@ class C09(SimSpec):
         scen["obs_inside"] = True
         if i % 5 == 1:
             scen["cancel"] = rng.choice([0.003, 0.01, 0.03])
+        if i % 5 == 2:
+            fl = lambda: {"failed": rng.random() < 0.8, "missing": rng.random() < 0.8, "successful": rng.random() < 0.3}
+            scen["resubmit"] = {"rounds": [fl()] + ([fl()] if rng.random() < 0.3 else [])}
+            scen["reports"] = rng.random() < 0.3
+            for j in scen["jobs"]:
+                if rng.random() < 0.3:
+                    j["rc"] = 1
+        if i % 10 == 7:
+            fl = lambda: {"failed": rng.random() < 0.8, "missing": rng.random() < 0.6, "successful": rng.random() < 0.3}
+            scen["resubmit"] = {"rounds": [fl()]}
+            scen["faults"] = {"node_kill": 1, "node_kill_w": 0.03}
         return scen
+
+    def tasks(self, tier, seed):
+        out = SimSpec.tasks(self, tier, seed)
+        for t in out:
+            if t["args"]["scen"].get("resubmit"):
+                t["args"]["cls"] = "sim.resub:ResubSim"
+        return out
 
     def nontrivial(self, t, r):
         return (r.get("obs") or 0) >= 20 and (r.get("sbatches") or 0) >= 2
@@ -459,6 +477,7 @@ class C09(SimSpec):
         c["observations_per_run"] = hist(min(200, 20 * ((r.get("obs") or 0) // 20)) for r in ok)
         c["unreadable_instants"] = total(ok, "obs_unreadable")
         c["runs_with_cancel"] = sum(1 for r in ok if r.get("canceled"))
+        c["runs_with_resubmission"] = sum(1 for r in ok if (r.get("epochs") or 1) > 1)
         return c
 
     def floors(self, cov):
